@@ -418,7 +418,7 @@ func TestVerifC19Out(t *testing.T) {
 		vfoOne(t, s, idx, vfoGen(r.Fork(), fmt.Sprintf("f%d", idx), f))
 		idx++
 	}
-	n := vfutil.Scale(60, 1500)
+	n := vfutil.Scale(60, 4000)
 	for i := 0; i < n; i++ {
 		vfoOne(t, s, idx, vfoGen(r.Fork(), fmt.Sprintf("g%d", i), ""))
 		idx++
